@@ -27,7 +27,10 @@ func Check_WellFormed() {
 		maxFields, maxRecs = 3, 3
 	}
 	maxFields = sx.Param("maxFields", maxFields)
-	kinds := common.DrawKinds(maxFields)
+	kinds := common.DrawKindsTiered(maxFields)
+	if len(kinds) >= 3 {
+		maxRecs = 2
+	}
 	tplID := sx.U16("tplID")
 	sx.Assume(tplID >= 256)
 	domain := sx.U32("domain")
